@@ -91,6 +91,14 @@ func init() {
 		blocks := 0
 		for blocks < n {
 			e := envs[rng.Intn(2)]
+			// the chain id of the block headers is a dimension of the history
+			chainID := []string{"sifchain-1", "sifchain-testnet-1", "sifchain-devnet-1", "localnet", "", "sifchain-testnet-042"}[rng.Intn(6)]
+			e.ctx = e.ctx.WithChainID(chainID)
+			cid := chainID
+			if cid == "" {
+				cid = "-"
+			}
+			out.Emit("mint.chain "+cid, "ok", "chain."+cid, false)
 			out.Emit(fmt.Sprintf("mint.cfg %s %s", e.mod.String(), b2s(e.blocked)),
 				fmt.Sprintf("cap=%s per=%s eco=%s", disptypes.MaxMintAmount, disptypes.MintAmountPerBlock, disptypes.EcoPool), "cfg", false)
 			// starting counter
